@@ -18,24 +18,48 @@ from harness.core import Failure, Family, Support, drive
 LEAN_MODULES = ["DxModel.Props.C18"]
 GENERATED = []
 TRUSTED = [
+    "statistics reach the planner through `fragment.metadata.to_dict()` (arrow) and dask's `_construct_collection_plan` (fsspec): "
+    "the tie replaces exactly these two by stubs delivering generated statistics; that real files produce such statistics "
+    "(min/max = the true extremes of the non-null values) is exercised by the end-to-end layouts only",
+    "python builtins min/max/sum/sorted/set and pandas argsort (stable below 17 elements) as specified in DxModel/ParquetStats.lean",
     "pyarrow / fsspec readers and writers (everything inside them is exercised, not modelled); the reader's row filter is "
     "assumed to be Kleene evaluation with 'keep iff true' (validated by the end-to-end search on data with nulls)",
     "Lean model of _DNF / extract_pq_filters shared with C03 (tied there by exact correspondence)",
     "the overwrite guard is modelled on path components; the string expression in to_parquet is compared with it on generated path pairs",
 ]
 PARTIAL = [
-    "statistics handling (_divisions_from_statistics, fragment sorting) and the fusion step size (float arithmetic) are not "
-    "modelled: their results are checked end-to-end (divisions truthful, rows equal) and the step only has to be >= 1",
+    "the FULL statement 'known divisions are truthful (C06, half-open) for every dataset within the statistics' is false for the "
+    "code as it is in the boundary case max_i = min_{i+1} (both readers accept touching ranges; open finding D92, counterexample "
+    "proven and replayed): what is proven without any hypothesis on the ranges is the closed-interval reading + sorted divisions + "
+    "rows sorted across partitions; the half-open reading only when no file's max equals another file's min "
+    "(C18_*_truthful_partial); null index values inside a file are outside every interval (open finding D93)",
+    "index values are integers, nulls are 'no value': truthfulness is stated for the non-null index values; the row order inside "
+    "a file is not derivable from statistics and not claimed (C06's rowsSorted); floats, strings and timestamps are assumed to "
+    "behave like a linear order",
+    "numpy's quicksort behind `Series.argsort` is stable only up to 16 elements: for longer lists files with identical "
+    "(min, max) may be ordered differently from the model (divisions identical; the theorems hold for every sorting permutation)",
+    "not modelled: `_construct_collection_plan`, `aggregate_row_groups`, `apply_filters` of dask (outside /repo; exercised end-to-end "
+    "only), `_collect_pq_statistics` (opens files; end-to-end only), the ValueError of `_divisions_from_statistics` when the index "
+    "column is not in the statistics (unnamed index), the fusion step size (float arithmetic; only step >= 1 is used), "
+    "`approx_statistics`/`_combine_stats` (averages used for the fusion factor only: they never decide divisions)",
 ]
 EXPLANATION = (
     "Theorems: fused multi-file buckets are an ordered partition of the selected files (any step >= 1) and fusion changes "
     "granularity only; pushed filters keep exactly pandas' rows for negation-free null-compatible predicates (instance of "
-    "C03_reader_pushdown) with the '!=' counterexample; overwrite guard = component-wise path prefix. Tie: _fusion_buckets, "
-    "FusedIO._divisions and the guard expression vs the model. Support: write/read-back of small datasets (nulls, named/"
-    "unnamed index, 1..4 files, unsorted statistics) x fsspec/arrow filesystem x calculate_divisions x projections x filter "
-    "trees x partition subsets x user filters x lengths, against the in-memory frame."
+    "C03_reader_pushdown) with the '!=' counterexample; overwrite guard = component-wise path prefix. Statistics: the sort index "
+    "is a permutation (same multiset of rows); every known answer of either reader is truthful in the closed-interval reading "
+    "with sorted divisions and rows sorted across partitions (arrow: after sorting the fragments, for any listing order); known "
+    "divisions imply pairwise non-overlapping ranges, overlapping/unsorted(fsspec)/missing statistics give unknown divisions "
+    "(arrow: since fix D91, C18_arrow_overlap_gives_unknown) or raise; touching-boundary counterexample (D92); metadata lengths "
+    "= num_rows of the very fragments the tasks "
+    "read, in selection order with repetitions, and sum over fused buckets. Tie: _fusion_buckets, FusedIO._divisions, the guard "
+    "expression, and the whole statistics pipeline of both readers on real expression instances with stub fragments/engine "
+    "(divisions + sort index + fragment order + Lengths/Len literals, or 'unknown'/'raised') vs the model. Support: write/read-back "
+    "of small datasets (nulls, named/unnamed index, 1..4 files, unsorted statistics) x fsspec/arrow filesystem x "
+    "calculate_divisions x projections x filter trees x partition subsets x user filters x lengths, plus 26 prescribed file "
+    "layouts (every listing order, touching, overlapping, contained, null index values, all-null files) x both readers: rows "
+    "equal, divisions truthful, loc on every label, lengths."
 )
-
 
 # --------------------------------------------------------------------------- T2 families
 
@@ -715,6 +739,210 @@ def run_case(case):
         shutil.rmtree(tmp, ignore_errors=True)
 
 
+# ----- datasets with a prescribed file layout (statistics → divisions, both readers) ------------------------------
+
+LAYOUTS = {
+    # disjoint ranges, files written in every order
+    "sorted3": [[0, 1, 2], [3, 4, 5], [6, 7]],
+    "perm3_021": [[0, 1, 2], [6, 7], [3, 4, 5]],
+    "perm3_102": [[3, 4, 5], [0, 1, 2], [6, 7]],
+    "perm3_120": [[3, 4, 5], [6, 7], [0, 1, 2]],
+    "perm3_201": [[6, 7], [0, 1, 2], [3, 4, 5]],
+    "reversed3": [[6, 7], [3, 4, 5], [0, 1, 2]],
+    "rot4": [[10, 11], [20, 25, 29], [30], [0, 3, 5, 9]],
+    "single": [[3, 1, 2]],
+    "unsorted_inside": [[2, 0, 1], [5, 3, 4]],
+    "gaps": [[0, 1], [10, 11], [100, 101]],
+    # touching boundaries: max of a file = min of another
+    "touch2": [[0, 5, 10], [10, 12, 15]],
+    "touch2_rev": [[10, 12, 15], [0, 5, 10]],
+    "touch3": [[0, 2], [2, 4], [4, 6]],
+    "touch_dups": [[1, 1], [1, 1], [1, 2]],
+    "touch_const": [[1, 2], [2, 2], [2, 3]],
+    # overlapping ranges
+    "overlap2": [[0, 5, 10], [5, 7, 15]],
+    "overlap2_rev": [[5, 7, 15], [0, 5, 10]],
+    "contained": [[0, 5, 10], [2, 3]],
+    "overlap3": [[0, 4], [3, 8], [9, 12]],
+    # null index values
+    "null_tail": [[0, 1, None], [3, 4, 5]],
+    "null_mid": [[0, 1, 2], [3, None, 5]],
+    "null_rev": [[3, None, 5], [0, 1, 2]],
+    # a file whose index is entirely null / constant with nulls (statistics without min/max, "dangerous" statistics)
+    "nullfile_last": [[0, 1, 2], [None, None]],
+    "nullfile_first": [[None, None], [3, 4, 5]],
+    "nullconst_first": [[1, 1, None], [3, 4, 5]],
+    "nullconst_last": [[3, 4, 5], [7, 7, None]],
+}
+
+
+def _layout_class(files):
+    """decidable classification of a layout by its per-file statistics (used in failure signatures)"""
+    mm = []
+    anynull = False
+    for f in files:
+        vals = [v for v in f if v is not None]
+        anynull = anynull or len(vals) != len(f)
+        if not vals:
+            return "null_file"
+        mm.append((min(vals), max(vals), len(vals) != len(f)))
+    if any(a == b and n for a, b, n in mm):
+        return "null_const"
+    cls = "disjoint"
+    for i in range(len(mm)):
+        for j in range(len(mm)):
+            if i < j:
+                a, b = mm[i], mm[j]
+                if a[1] < b[0] or b[1] < a[0]:
+                    continue
+                if a[1] == b[0] or b[1] == a[0]:
+                    if cls == "disjoint":
+                        cls = "touching"
+                else:
+                    cls = "overlap"
+    if cls == "disjoint" and anynull:
+        return "null_index"
+    return cls
+
+
+def _write_layout(files, path):
+    os.makedirs(path, exist_ok=True)
+    pdfs = []
+    row = 0
+    for j, idx in enumerate(files):
+        n = len(idx)
+        dt = "Int64" if any(v is None for v in idx) else "int64"
+        pdf = pd.DataFrame(
+            {"a": np.arange(row, row + n, dtype="int64"), "b": np.arange(row, row + n, dtype="int64") % 3,
+             "c": [f"s{(row + k) % 4}" for k in range(n)]},
+            index=pd.Index(pd.array(idx, dtype=dt), name="idx"),
+        )
+        row += n
+        pdf.to_parquet(os.path.join(path, f"part.{j}.parquet"))
+        pdfs.append(pdf)
+    return pdfs
+
+
+def _idx_values(p):
+    ix = p.index if not isinstance(p, pd.Index) else p
+    return [None if pd.isna(v) else int(v) for v in ix]
+
+
+def _check_divisions(coll, what):
+    """C06 truthfulness of the divisions of the optimized collection against its computed partitions"""
+    o = coll.optimize()
+    if not o.known_divisions:
+        return None
+    divs = list(o.divisions)
+    parts = e2e.compute_partitions(coll)
+    if len(parts) != len(divs) - 1:
+        return f"{what}: {len(parts)} partitions computed, divisions have {len(divs)} entries"
+    if divs != sorted(divs):
+        return f"{what}: divisions not sorted: {divs}"
+    for i, p in enumerate(parts):
+        vals = _idx_values(p)
+        last = i == len(parts) - 1
+        for v in vals:
+            if v is None:
+                return f"{what}: partition {i} holds a null index value although divisions {tuple(divs)} are reported"
+            if v < divs[i] or v > divs[i + 1] or (v == divs[i + 1] and not last):
+                return f"{what}: partition {i} holds index {v} outside [{divs[i]}, {divs[i+1]}{']' if last else ')'} (divisions {tuple(divs)})"
+    return None
+
+
+def run_layout_case(case):
+    import dask_expr as dx
+
+    files = case["files"]
+    tmp = tempfile.mkdtemp(prefix="vc18_")
+    try:
+        path = os.path.join(tmp, "ds")
+        pdfs = _write_layout(files, path)
+        full = pd.concat(pdfs)
+        kw = {"calculate_divisions": bool(case.get("calc_div"))}
+        if case["fs"] == "arrow":
+            kw["filesystem"] = "arrow"
+        r = dx.read_parquet(path, **kw)
+        q, want = r, full
+        if case["query"] == "fused":
+            q, want = r[["a"]] + 1, full[["a"]] + 1
+        elif case["query"] == "series":
+            q, want = r.b, full.b
+        if case["query"] == "len":
+            got = len(r)
+            if got != len(full):
+                return "rows", f"len() = {got}, the files hold {len(full)} rows"
+            whole = [len(x) for x in e2e.compute_partitions(r, optimize=False)]
+            for P in case.get("Ps", []):
+                if max(P) >= r.npartitions:
+                    continue
+                sub = r.partitions[P]
+                if len(sub) != sum(whole[i] for i in P):
+                    return "rows", f"len(partitions[{P}]) = {len(sub)}, those partitions hold {sum(whole[i] for i in P)} rows"
+                if len(sub.a) != len(sub.a.compute()):
+                    return "rows", f"len(partitions[{P}].a) = {len(sub.a)}, computed {len(sub.a.compute())} rows"
+                from dask_expr._expr import Lengths, Literal
+
+                le = Lengths(sub.expr).simplify()
+                if isinstance(le, Literal) and tuple(le.operand("value")) != tuple(whole[i] for i in P):
+                    return "rows", (f"Lengths(partitions[{P}]) simplifies to {tuple(le.operand('value'))}, "
+                                    f"the partitions hold {tuple(whole[i] for i in P)} rows")
+            return None
+        got = q.compute()
+        if not e2e.same(got, want, sort_rows=True):
+            return "rows", f"rows differ from the files' content: got {len(got)} rows {e2e.describe(got, 5)} want {len(want)} rows"
+        msg = _check_divisions(q, case["query"])
+        if msg:
+            extra = ""
+            if "null index" in msg:
+                o = r.optimize()
+                try:
+                    rp = r.repartition(divisions=[o.divisions[0], o.divisions[-1]]).compute()
+                    extra = f"; repartition(divisions=[{o.divisions[0]}, {o.divisions[-1]}]) returns {len(rp)} of {len(full)} rows"
+                except Exception as ex:  # noqa: BLE001
+                    extra = f"; repartition raised {type(ex).__name__}"
+            else:
+                # observable consequence: label lookup only visits the partition the divisions name
+                for b in sorted({v for f in files for v in f if v is not None}):
+                    try:
+                        g = r.loc[b].compute()
+                        w = full.loc[[b]]
+                        if not e2e.same(g, w, sort_rows=True):
+                            extra = f"; loc[{b}] returns {len(g)} of {len(w)} rows"
+                            break
+                    except KeyError:
+                        extra = f"; loc[{b}] raises KeyError for an existing label"
+                        break
+            return "divisions", msg + extra
+        if r.known_divisions and case["query"] == "roundtrip":
+            # (the row order inside a file is not derivable from statistics and is not checked; across partitions
+            # sortedness follows from truthful divisions — theorem C18_*_divisions_*: SortedAcross)
+            for b in sorted({v for f in files for v in f if v is not None}):
+                g = r.loc[b].compute()
+                w = full.loc[[b]]
+                if not e2e.same(g, w, sort_rows=True):
+                    return "loc", f"loc[{b}] returns {len(g)} rows, pandas {len(w)} (divisions {r.divisions})"
+        if _layout_class(files) == "overlap" and r.known_divisions:
+            return "divisions", f"divisions {r.divisions} reported although the index ranges of the files overlap"
+        if not case.get("calc_div") and r.known_divisions:
+            return "divisions", f"divisions {r.divisions} reported without calculate_divisions"
+        return None
+    finally:
+        shutil.rmtree(tmp, ignore_errors=True)
+
+
+def _layout_cases(ctx):
+    cases = []
+    for name, files in LAYOUTS.items():
+        for fs in ("fsspec", "arrow"):
+            for query in ("roundtrip", "fused", "series"):
+                cases.append({"kind": "layout", "layout": name, "files": files, "fs": fs, "calc_div": True, "query": query})
+            cases.append({"kind": "layout", "layout": name, "files": files, "fs": fs, "calc_div": True, "query": "len",
+                          "Ps": [[0], [1], [1, 0], [0, 0], [2, 1]]})
+            cases.append({"kind": "layout", "layout": name, "files": files, "fs": fs, "calc_div": False, "query": "roundtrip"})
+    return cases
+
+
 def run_guard_case(case):
     import dask_expr as dx
 
@@ -806,36 +1034,92 @@ def _cases(ctx, broken):
         {"kind": "guard", "read": ["d", "a"], "write": ["d", "ab"]},
         {"kind": "guard", "read": ["d", "a"], "write": ["e"]},
     ]
+    layouts = _layout_cases(ctx)
+    steered = []
+    for b in broken or []:
+        # a disagreeing statistics list of a correspondence family becomes a real dataset with exactly those per-file
+        # [min, max] (files in the same listing order), read back by both readers
+        inp = (b.get("first") or {}).get("input") if isinstance(b, dict) else None
+        enc = (inp or {}).get("files") or (inp or {}).get("stats") if isinstance(inp, dict) else None
+        if not enc:
+            continue
+        import re as _re
+
+        files = []
+        for ent in str(enc).split(";"):
+            mm = _re.findall(r"(-?\d+)_(-?\d+)", ent)
+            if mm:
+                lo, hi = min(int(a) for a, _ in mm), max(int(z) for _, z in mm)
+                files.append(sorted({lo, (lo + hi) // 2, hi}))
+            elif ":N" in ent or "N." in ent:
+                files.append([None, None])
+        files = [f for f in files if f]
+        if files and len(files) <= 12:
+            for fs in ("fsspec", "arrow"):
+                for query in ("roundtrip", "fused", "len"):
+                    steered.append({"kind": "layout", "layout": "steered", "files": files, "fs": fs, "calc_div": True, "query": query,
+                                    "Ps": [[0], [len(files) - 1, 0], [0, 0]]})
+    # regression of fixed finding D91 (arrow reader reported divisions for overlapping files): these layouts run first in
+    # every tier; they must give unknown divisions and all rows
+    layouts = steered + sorted(layouts, key=lambda c: _layout_class(c["files"]) != "overlap")
+    if broken and any("statistics" in str(b.get("family", "")) or "fsspec_plan" in str(b.get("family", ""))
+                      or "ParquetStats" in str(b.get("module", "")) or "C18" in str(b.get("module", "")) for b in broken):
+        # a statistics obligation broke: run every layout first, whatever the tier
+        return layouts + guards + lenparts
     ctx.rng.shuffle(cases)
     if ctx.quick:
         must = [c for c in cases if c.get("elemwise") and c["kind"] == "proj" and c["fs"] == "arrow" and c["nfiles"] == 4][:6]
         must += [c for c in cases if c.get("pred") in ("a_ne", "or_ne") and c["fs"] == "arrow"][:6]
         cases = must + cases[:100]
-    return guards + lenparts + cases
+    return guards + lenparts + layouts + cases
 
 
-def _sig(case):
+def _sig(case, what=None):
+    if case["kind"] == "layout":
+        cls = _layout_class(case["files"])
+        if cls == "null_const" and what == "divisions":
+            cls = "null_index"  # same defect: known divisions although a partition holds null index values
+        return {"kind": "layout", "fs": case["fs"], "stats": cls, "what": what, "calc_div": bool(case.get("calc_div"))}
     return {"kind": case["kind"], "fs": case.get("fs"), "pred": case.get("pred"), "nulls_ne": case.get("pred") in ("a_ne", "or_ne")}
+
+
+def _run_any(case):
+    """-> (what, message) | None"""
+    if case["kind"] == "guard":
+        msg = run_guard_case(case)
+    elif case["kind"] == "layout":
+        res = run_layout_case(case)
+        return res
+    else:
+        msg = run_case(case)
+    return (None, msg) if msg else None
 
 
 def support(ctx, broken):
     sup = Support()
+    seen_sigs = set()
     for case in _cases(ctx, broken):
         try:
-            msg = run_guard_case(case) if case["kind"] == "guard" else run_case(case)
+            res = _run_any(case)
         except Exception as ex:  # noqa: BLE001
-            msg = f"raised {type(ex).__name__}: {str(ex)[:200]}"
+            res = (f"raised:{type(ex).__name__}", f"raised {type(ex).__name__}: {str(ex)[:200]}")
         sup.executed += 1
-        sup.count(f"{case['kind']}/{case.get('fs', '-')}")
+        sup.count(f"{case['kind']}/{case.get('fs', '-')}" + (f"/{_layout_class(case['files'])}" if case["kind"] == "layout" else ""))
         if len(sup.samples) < 3:
             sup.samples.append(case)
-        if msg:
-            sup.failures.append(Failure(sig=_sig(case), case=case, detail=msg))
-            if len(sup.failures) >= 10:
+        if res:
+            what, msg = res
+            sig = _sig(case, what)
+            key = repr(sorted(sig.items(), key=repr))
+            if case["kind"] == "layout" and key in seen_sigs:
+                continue  # one witness per signature is enough (the others are the same defect on another layout)
+            seen_sigs.add(key)
+            sup.failures.append(Failure(sig=sig, case=case, detail=msg))
+            if len(sup.failures) >= 16:
                 break
     return sup
 
 
 def replay(case):
-    msg = run_guard_case(case) if case["kind"] == "guard" else run_case(case)
-    return Failure(sig={}, case=case, detail=msg) if msg else None
+    res = _run_any(case)
+    return Failure(sig=_sig(case, res[0]), case=case, detail=res[1]) if res else None
